@@ -1274,7 +1274,10 @@ def _short(o):
 CALL_POOLS = ("str", "summix", "decmag")
 RNG_SEEDS = (1, 7, 11, 4711, 233279)
 RNG_DRAWS = [(0, 1000), (0, 0), (5, 50), (0, 0), (0, 9000), (0, 7)]          # (0, 0): the decimal form
-RNG_KINDS = {"int1": "Random->random(1000)", "int2": "Random->random(5, 50)", "dec": "Random->random()"}
+RNG_KINDS = {"int1": "Random->random(1000)", "int2": "Random->random(5, 50)", "dec": "Random->random()",
+             # spans beyond the number of states of the seeded generator (233280): still the seeded generator
+             "wide1": "Random->random(1000000)", "wide2": "Random->random(-500000, 500000)", "wide3": "Random->random(233281)",
+             "wide4": "Random->random(1000000000000)", "edge": "Random->random(233280)"}
 
 
 def _draw_src(d):
